@@ -7,6 +7,8 @@ ALG = ["algebra/main.cpp"] + ["algebra/c%s.cpp" % n for n in ("01", "02", "03", 
 
 SOLVER = ["solver/main.cpp", "solver/c04.cpp", "solver/c05.cpp", "solver/c10.cpp", "solver/c17.cpp"]
 
+LIFE = ["life/main.cpp", "life/c14.cpp", "life/stubs.cpp", "common/ledger.cpp"]
+
 PROPS = {
     "C01": dict(
         harness="h_algebra", sources=ALG, level="exploration",
@@ -141,7 +143,18 @@ PROPS = {
                     thorough={"evolve.segments": 20000, "twin_comparisons": 15000}),
         assumptions=["integration allowance per numeric segment 2e3*tol*(1+|y|) (fixed step: 2e-6, rk2 1e-5), accumulated over the history and multiplied by 4 for the bounded growth of the generated problems"],
     ),
+    "C14": dict(
+        harness="h_life", sources=LIFE, level="exploration", exhaustive=True,
+        variants=dict(quick=[V("asan", 8), V("opt", 4)], thorough=[V("asan", 8), V("opt", 4), V("align", 4)]),
+        rule="exhaustive over the stated window: 36 binary entry points (4 sum and 2 difference overloads, scalar product both ways, both commutators, 4+4 element-wise overloads, += / -= "
+             "with vectors and with every proxy kind, Evolve by an operator in four statement forms, Rotate(matrix)) x all 20 ordered pairs d1!=d2 x {library owned, externally backed on "
+             "exact-size heap blocks}; constructors/factories with dimension 1,7,8; factory indices d..d*d+2; list lengths 1..64 except supported squares; all n1 x n2 matrices up to 7x7 "
+             "except supported squares; size-changing assignments to externally backed targets. Each must throw, operands bitwise unchanged, ASan silent. distinct_nontrivial = distinct cells.",
+        floors=dict(quick={"ctor_groups": 9, "storage.external": 700, "storage.owned": 700}, thorough={"ctor_groups": 9}),
+        assumptions=["ASan red zones adjoin the exact-size operand blocks, so a read past the smaller operand is reported", "one process per cell is not needed: the driver restarts a shard after a sanitizer abort"],
+    ),
 }
+
 
 # ---- texts for MANIFEST.json (tools/gen_manifest.py)
 NOTES = ("Runtime monitoring only: every verdict comes from an oracle observing executions of the real library compiled from /repo's working tree "
